@@ -85,7 +85,12 @@ impl Prop for C07T {
         for i in 1..sc.scheds.len() {
             let o = exec(&process_exec(sc, stream.clone(), i), st);
             if o.crashed() {
-                return Verdict::Skip("skip:crashed(C05)");
+                // the reference schedule ran to the end of the stream, this one crashed:
+                // the outcome depends on how the stream arrives
+                return Verdict::Violation {
+                    class: "schedule-dependent".into(),
+                    detail: format!("schedule {i} crashes ({}) while schedule 0 runs to the end of the stream\n    sched 0:{}\n    sched {i}:{}", o.panic.clone().unwrap_or_else(|| "no progress".into()), brief(&r), brief(&o)),
+                };
             }
             if let Some(what) = logs_differ(&r, &o) {
                 return Verdict::Violation {
@@ -179,6 +184,9 @@ impl Prop for C07T {
             }
         }
         Verdict::Held { nontrivial: differing_schedules >= 1 && carry, sig: scenario_sig(sc) }
+    }
+    fn hang_probe(&self, sc: &Scenario) -> Option<simcore::exec::Exec> {
+        Some(process_exec(sc, sc.bytes(), 0))
     }
     fn rule(&self) -> &'static str {
         "one scenario = (interface, N, byte stream, 5..17 read/suspension schedules incl. the reference schedule of largest reads, single bytes, message aligned, exact-fill biased, empty reads); all schedules must give identical handler, response and error logs, and equal run-per-message when every message fits and none has an inner newline; distinct = distinct hash of (interface, N, stream, all schedules); non-trivial = at least one schedule delivers the bytes in different read sizes than the reference AND some run kept unprocessed bytes across reads (carry-over, compaction or overflow reset)"
